@@ -8,7 +8,7 @@ MODULES = K.mods("base", "Angle", "Epoch", "Interpolation", "Coordinates", "Eart
 REQUIRED = ["Sun.get_equinox_solstice", "Sun.equation_of_time", "Sun.apparent_geocentric_position",
             "Epoch.rise_set", "Epoch.apparent_sidereal_time", "times_rise_transit_set",
             "equatorial2horizontal", "ecliptical2equatorial", "true_obliquity", "nutation_longitude"]
-THEOREMS = ["C14_eot_closed_form", "C14_eot_reduced", "C14_eot_bound", "C14_eot_seconds", "C14_eot_recompose",
+THEOREMS = ["C14_jde2000", "C14_eot_closed_form", "C14_eot_reduced", "C14_eot_bound", "C14_eot_seconds", "C14_eot_recompose",
             "C14_season_first_query", "C14_season_year_range", "C14_season_type",
             "C14_season_exit_step", "C14_season_order", "C14_season_year_length", "C14_season_joint",
             "C14_sunrise_identity"]
@@ -25,7 +25,7 @@ EXPLANATION = ("Generated Sun.equation_of_time is evaluated symbolically (ideal 
                "type-checks against the theorem; get_equinox_solstice is evaluated up to its loop (mean instants = explicit "
                "polynomials, ordered/spaced by `interval`), its exit step is characterised; all VSOP-dependent numbers are searched.")
 CLAUSES = {
-    "equation of time = 4*red360(L0 - 0.0057183 - alpha + dpsi cos eps), red360 x = x - 360 round(x/360) (abstract alpha, dpsi, eps, reduced L0)":
+    "equation of time = 4*red360(L0 - 0.0057183 - alpha + dpsi cos eps), red360 x = x - 360 round(x/360) (abstract alpha, dpsi, eps, reduced L0; JDE2000 = 2451545 proved: C14_jde2000)":
         "proved [ideal, pyrun with callees abstracted: C14_eot_closed_form]",
     "|E| <= 720 min structurally, E congruent to the unreduced value mod 1440 min": "proved [ideal: C14_eot_bound, C14_eot_reduced]",
     "(m, s): m = trunc(E), s = (|E| mod 1)*60 in [0,60), |m| + s/60 = |E|": "proved [ideal: C14_eot_seconds, C14_eot_recompose]",
@@ -44,13 +44,13 @@ CLAUSES = {
     "rise/set within 1 deg of -0.8333 - dip against VSOP Sun + sidereal time; rise < transit < set; ValueError beyond 66d33'":
         "unproved (searched); the 1 deg bound is refuted on the tree of 2026-10-01 near the ends of 1900-2100: witness "
         "Epoch(2095,3,20).rise_set(Angle(-66.4), Angle(149.22583329129634), 2261.2834322062554) sunset 1.06 deg off "
-        "(keys sunrise-altitude / sunset-altitude; all witnesses have |year-2000| >= 75 and |latitude| >= 40: perihelion longitude frozen at J2000)",
+        "(known finding, keys sunrise-altitude / sunset-altitude inside the envelope |year-2000| >= 75, |latitude| >= 40, deviation <= 1.3 deg: perihelion longitude frozen at J2000; outside it the keys are *-gross and count as violations)",
     "times_rise_transit_set: altitude at rise/set within 0.005 deg, meridian at transit, None iff never crossing": "unproved (searched)",
 }
 
 
 def proof_files(tier):
-    return ["C14_tac.v", "C14_angle.v", "C14_eot.v", "C14_season.v", "C14_seasonB.v", "C14_season_all.v",
+    return ["C14_tac.v", "C14_angle.v", "C14_jde.v", "C14_eot.v", "C14_season.v", "C14_seasonB.v", "C14_season_all.v",
             "C14_poly.v", "C14_rise.v", "C14.v"]
 
 
@@ -289,11 +289,14 @@ def rise_set(cx, rng, n):
         jr, js = rs.jde(), st.jde()
         ar, har = cx.sun_alt_ha(jr, lat, lon)
         as_, has = cx.sun_alt_ha(js, lat, lon)
+        # known finding (known_findings.json): the J2000-frozen sunrise equation misses 1 deg by at most 0.3 deg
+        # for |year-2000| >= 75 and |latitude| >= 40; anything else is reported under the -gross keys
+        env = abs(y - 2000) >= 75 and abs(lat) >= 40.0
         if not abs(ar - h0) <= 1.0:
-            cx.add("sunrise-altitude", "%s: at the returned sunrise JD %.5f the Sun's centre is at %.3f deg, standard altitude %.3f"
+            cx.add("sunrise-altitude" if (env and abs(ar - h0) <= 1.3) else "sunrise-altitude-gross", "%s: at the returned sunrise JD %.5f the Sun's centre is at %.3f deg, standard altitude %.3f"
                    % (call, jr, ar, h0), [y, mo, d, lat, lon, h], rp)
         if not abs(as_ - h0) <= 1.0:
-            cx.add("sunset-altitude", "%s: at the returned sunset JD %.5f the Sun's centre is at %.3f deg, standard altitude %.3f"
+            cx.add("sunset-altitude" if (env and abs(as_ - h0) <= 1.3) else "sunset-altitude-gross", "%s: at the returned sunset JD %.5f the Sun's centre is at %.3f deg, standard altitude %.3f"
                    % (call, js, as_, h0), [y, mo, d, lat, lon, h], rp)
         # sunrise < local transit < sunset: east of the meridian at rise, west at set, less than a day apart
         if not (jr < js and js - jr < 1.0 and har < 0.0 < has):
